@@ -232,10 +232,19 @@ def shrink(text, sig, budget=40, max_s=90):
 
 # ---------------------------------------------------------------------------------------------------------------------
 
+ENUM = {"full": (set(), 0), "core": (set(), 0)}      # alphabet, max length of the exhaustive streams of this run
+
+
+def is_enum_text(text):
+    """is this text one of the exhaustively enumerated ones (counted arithmetically, not kept in a set)?"""
+    parts = text.split(" ") if text else []
+    return any(len(parts) <= n and all(p in a for p in parts) for a, n in ENUM.values())
+
+
 def new_stats():
-    return {"evaluations": 0, "distinct": set(), "nontrivial": set(), "classes": collections.Counter(), "valid": 0,
+    return {"evaluations": 0, "distinct": set(), "nontrivial": set(), "distinct_n": 0, "nontrivial_n": 0, "classes": collections.Counter(), "valid": 0,
             "by_stream": collections.Counter(), "ntok_hist": collections.Counter(), "diag_cases": 0, "max_bytes": 0,
-            "c04": {}, "c03": {}, "samples": [], "span_checked_diags": 0}
+            "c04": {}, "c03": {}, "samples": [], "span_checked_diags": 0, "flaky": 0}
 
 
 def absorb(stats, stream, out):
@@ -248,11 +257,17 @@ def absorb(stats, stream, out):
             problems.append({"kind": "bad-line", "stream": stream, "line": line[:300]})
             continue
         stats["evaluations"] += 1
+        stats["flaky"] += "flaky=" in r["extra"]
         stats["by_stream"][stream.rstrip("0123456789")] += 1
-        h = hash(r["hex"])
-        stats["distinct"].add(h)
-        if r["ntok"] >= 2:
-            stats["nontrivial"].add(h)
+        if stream.startswith("enum-full") and "nosep" not in stream or stream.startswith("enum-core") and "nosep" not in stream:
+            # exhaustive streams: texts are pairwise distinct by construction (the core/full overlap is subtracted at the end)
+            stats["distinct_n"] += 1
+            stats["nontrivial_n"] += r["ntok"] >= 2
+        elif not is_enum_text(unhx(r["hex"])):
+            h = hash(r["hex"])
+            stats["distinct"].add(h)
+            if r["ntok"] >= 2:
+                stats["nontrivial"].add(h)
         stats["classes"][r["class"]] += 1
         stats["valid"] += r["valid"]
         stats["span_checked_diags"] += r["ndiag"]
@@ -272,7 +287,7 @@ def absorb(stats, stream, out):
 
 
 def merge(a, b):
-    for k in ("evaluations", "valid", "span_checked_diags"):
+    for k in ("evaluations", "valid", "span_checked_diags", "flaky", "distinct_n", "nontrivial_n"):
         a[k] += b[k]
     for k in ("distinct", "nontrivial"):
         a[k] |= b[k]
@@ -372,6 +387,8 @@ def main(ctx, args):
         jobs = []
         sh = 16 if quick else 64
         full_len, core_len = (3, 5) if quick else (4, 6)
+        ENUM["full"] = ({sp for _, sp in info["C04_alphabet"]}, full_len)
+        ENUM["core"] = ({sp for _, sp in info["C04_core_alphabet"]}, core_len)
         for k in range(sh):
             jobs.append((f"enum-full{k}", ["enum", jpath, "full", full_len, "sep", k, sh]))
             jobs.append((f"enum-core{k}", ["enum", jpath, "core", core_len, "sep", k, sh]))
@@ -458,9 +475,13 @@ def main(ctx, args):
             ctx.known_finding(f"{k['id']} [{k['sig']}] {k['what']} (cases hit this run: {n})")
         if n == 0 and args.replay is None:
             ctx.notes.append(f"known finding {k['id']} did not reproduce on its own witness in this run")
+    # core sequences no longer than the full-alphabet bound were enumerated twice
+    nc, lmin = len(ENUM["core"][0]), min(ENUM["full"][1], ENUM["core"][1])
+    overlap = sum(nc ** l for l in range(0, lmin + 1)) if stats["distinct_n"] else 0
+    overlap_nontrivial = sum(nc ** l for l in range(2, lmin + 1)) if stats["distinct_n"] else 0
     ctx.coverage.update({
         "evaluations": stats["evaluations"],
-        "distinct_nontrivial": len(stats["nontrivial"]),
+        "distinct_nontrivial": len(stats["nontrivial"]) + stats["nontrivial_n"] - overlap_nontrivial,
         "rule": "one evaluation = one text run through tokenize, parse_to_expr, typecheck_with_module_info, Context::emit_bytecode and "
                 "Context::emit_wasm in a child process; distinct = distinct text; non-trivial = at least two syntax tokens",
         "samples": stats["samples"][:4] or [{"note": "no sample recorded (replay mode or tiny run)"}],
@@ -468,7 +489,7 @@ def main(ctx, args):
         "model_impl_disagreements": len(span_stats["disagree"]),
         "impl_property_failures": sum(e["count"] for e in stats["c04"].values()),
         "input_distribution": {
-            "distinct_texts": len(stats["distinct"]),
+            "distinct_texts": len(stats["distinct"]) + stats["distinct_n"] - overlap,
             "by_stream": dict(stats["by_stream"]),
             "outcome_classes": dict(stats["classes"]),
             "texts_accepted_by_front_end": stats["valid"],
@@ -476,6 +497,7 @@ def main(ctx, args):
             "max_text_bytes": stats["max_bytes"],
             "diagnostics_whose_spans_were_checked": stats["span_checked_diags"],
             "parser_error_spans_compared_with_model": span_stats["errors"],
+            "aborts_or_timeouts_that_did_not_reproduce_in_a_fresh_child(verdict of the fresh child used)": stats["flaky"],
         },
         "failing_cases_by_known_finding": {known_by_sig[s]["id"]: n for s, n in hit.items()},
         "valid_program_panics_reported_to_C03": {s: {"cases": e["count"], "site": e["display"], "message": e["msg"][:100], "src": unhx(e["hex"])[:200]}
